@@ -136,21 +136,20 @@ RegOfJA(h) ==
       p == (o % JAOuter) % JAInner IN
   <<74, 65, DChr(d1), DChr(d2)>> \o
   (IF p < 340
-   THEN <<DChr(p \div 34), IF p % 34 < 10 THEN DChr(p % 34) ELSE LChr(p % 34 - 10)>>
+   THEN <<DChr(p \div 34), (IF p % 34 < 10 THEN DChr(p % 34) ELSE LChr((p % 34) - 10))>>
    ELSE <<LChr((p - 340) \div 24), LChr((p - 340) % 24)>>)
 
 ---------------------------------------------------------------------------
 (* Republic of Korea: HL + four decimal digits, stored as one hexadecimal  *)
 (* nibble per digit in three ranges (HL7200-7799, HL8000-8099, HL8200-8299)*)
 HLRanges == << <<7200, 7799, \h71BA00>>, <<8000, 8099, \h71C000>>, <<8200, 8299, \h71C200>> >>
-BCD(n) == 4096 * (n \div 1000) + 256 * ((n \div 100) % 10) + 16 * ((n \div 10) % 10) + n % 10
+BCD(n) == 4096 * (n \div 1000) + 256 * ((n \div 100) % 10) + 16 * ((n \div 10) % 10) + (n % 10)
 IsBCD(x) == x % 16 < 10 /\ (x \div 16) % 16 < 10 /\ (x \div 256) % 16 < 10 /\ x \div 4096 < 10
-UnBCD(x) == 1000 * (x \div 4096) + 100 * ((x \div 256) % 16) + 10 * ((x \div 16) % 16) + x % 16
+UnBCD(x) == 1000 * (x \div 4096) + 100 * ((x \div 256) % 16) + 10 * ((x \div 16) % 16) + (x % 16)
 Dec4(n) == <<DChr(n \div 1000), DChr((n \div 100) % 10), DChr((n \div 10) % 10), DChr(n % 10)>>
-NumOf(cs) == IF cs = <<>> THEN 0 ELSE
-  LET RECURSIVE Acc(_, _)
-      Acc(i, a) == IF i > Len(cs) THEN a ELSE Acc(i + 1, 10 * a + DVal(cs[i]))
-  IN Acc(1, 0)
+RECURSIVE NumAcc(_, _, _)
+NumAcc(cs, i, a) == IF i > Len(cs) THEN a ELSE NumAcc(cs, i + 1, 10 * a + DVal(cs[i]))
+NumOf(cs) == NumAcc(cs, 1, 0)
 AllDigits(cs) == \A i \in 1..Len(cs) : IsDigit(cs[i])
 HLRangeOf(n) == IF n >= 7200 /\ n <= 7799 THEN 1
                 ELSE IF n >= 8000 /\ n <= 8099 THEN 2
@@ -327,7 +326,7 @@ MarkState ==
   "RDPL" :> "Laos" @@ "RP" :> "Philippines" @@ "SE" :> "Sweden" @@ "SN" :> "Poland" @@
   "SP" :> "Poland" @@ "ST" :> "Sudan" @@ "SU" :> "Egypt" @@ "SX" :> "Greece" @@
   "S2" :> "Bangladesh" @@ "S3" :> "Bangladesh" @@ "S5" :> "Slovenia" @@ "S7" :> "Seychelles" @@
-  "S9" :> "São Tomé and Príncipe" @@ "TC" :> "Turkey" @@ "TF" :> "Iceland" @@
+  "TC" :> "Turkey" @@ "TF" :> "Iceland" @@
   "TG" :> "Guatemala" @@ "TI" :> "Costa Rica" @@ "TJ" :> "Cameroon" @@
   "TL" :> "Central African Republic" @@ "TN" :> "Republic of the Congo" @@ "TR" :> "Gabon" @@
   "TS" :> "Tunisia" @@ "TT" :> "Chad" @@ "TU" :> "Ivory Coast" @@ "TY" :> "Benin" @@
@@ -362,7 +361,7 @@ Alias ==
   "Republic of Korea" :> {"South Korea", "Korea, Republic of", "Korea (Republic of)"} @@
   "Russia" :> {"Russian Federation"} @@
   "Syria" :> {"Syrian Arab Republic"} @@
-  "Turkey" :> {"Türkiye", "Turkiye"} @@
+  "Turkey" :> {"Turkiye"} @@
   "The Netherlands" :> {"Netherlands", "Netherlands, Kingdom of the"} @@
   "Czech Republic" :> {"Czechia"} @@
   "Iran" :> {"Iran, Islamic Republic of"} @@
@@ -372,10 +371,11 @@ Alias ==
   "Venezuela" :> {"Venezuela (Bolivarian Republic of)"} @@
   "Bolivia" :> {"Bolivia (Plurinational State of)"} @@
   "Vietnam" :> {"Viet Nam"} @@
-  "Ivory Coast" :> {"Côte d'Ivoire", "Cote d'Ivoire"} @@
+  "Ivory Coast" :> {"Cote d'Ivoire"} @@
   "Cape Verde" :> {"Cabo Verde"} @@
   "Guinea Bissau" :> {"Guinea-Bissau"} @@
   "Brunei" :> {"Brunei Darussalam"}
+MarkSet == DOMAIN MarkState
 NamesOf(state) == {state} \cup (IF state \in DOMAIN Alias THEN Alias[state] ELSE {})
 
 (* The nationality mark of a registration: the text before the hyphen, or, *)
@@ -387,11 +387,11 @@ RECURSIVE LongestMark(_, _)
 LongestMark(reg, k) ==
   IF k = 0 THEN ""
   ELSE LET s == StrOf(SubSeq(reg, 1, k)) IN
-       IF s \in DOMAIN MarkState THEN s ELSE LongestMark(reg, k - 1)
+       IF s \in MarkSet THEN s ELSE LongestMark(reg, k - 1)
 MarkOf(reg) ==
   LET d == DashPos(reg, 1) IN
   IF d > 1 THEN LET s == StrOf(SubSeq(reg, 1, d - 1)) IN
-                IF s \in DOMAIN MarkState THEN s ELSE ""
+                IF s \in MarkSet THEN s ELSE ""
   ELSE IF d = 1 THEN ""
   ELSE LongestMark(reg, IF Len(reg) < 4 THEN Len(reg) ELSE 4)
 (* C14 (3): the registration's nationality mark belongs to 'country'.      *)
